@@ -168,9 +168,9 @@ def check_rules(ctx, f, lp, ps):
             "propensity_params['type']='general'", "propensity_params['rate']=rule_formula",
             "rule_rxn=([],[rulevariable],propensity_params['type'],propensity_params)", "allreactions.append(rule_rxn)"]
     miss = [n for n in need if n not in txt]
-    n_str = txt.count("rule_string=rulevariable+'='+rule_formula")
-    if n_str != 2:
-        miss.append("rule_string = rulevariable + '=' + rule_formula (species and parameter branch)")
+    strs = [t for t in txt if t.startswith('rule_string=')]
+    if not strs or any(t != "rule_string=rulevariable+'='+rule_formula" for t in strs):
+        miss.append("rule_string = rulevariable + '=' + rule_formula (got %s)" % strs)
     ctx.ob('R13.2-rule-shape', 'tuples', not miss, where,
            "the rule is variable=formula of this element; the rate-rule reaction is ([], [variable], 'general', {'rate': formula})", str(miss))
 
@@ -186,35 +186,53 @@ def check_stoichiometry(ctx, f, lp):
             sl = loops[0]
             v = src(sl.target)
             apps = [c for c in ast.walk(lp) if isinstance(c, ast.Call) and src(c.func) == '%s.append' % lst]
-            inside = [c for c in apps if any(c is x for x in ast.walk(sl))]
-            if len(inside) != len(apps):
+            if any(not any(c is x for x in ast.walk(sl)) for c in apps):
                 problems.append('%s is appended to outside the %s loop' % (lst, role))
-            n_expanded = 0
-            for c in inside:
-                # enclosing for over range(int(v.getStoichiometry())) or the non-finite fallback
-                cur = c
-                expanded = False
-                fallback = False
-                while cur is not sl:
-                    par = cur._parent
-                    if isinstance(par, ast.For) and src(par.iter).replace(' ', '') == 'range(int(%s.getStoichiometry()))' % v:
-                        expanded = True
-                    if isinstance(par, ast.If) and src(par.test).replace(' ', '') == 'np.isfinite(%s.getStoichiometry())' % v and cur in par.orelse:
-                        fallback = True
-                    cur = par
-                if expanded:
-                    n_expanded += 1
-                elif not fallback:
-                    problems.append('an id is appended once regardless of the stoichiometry (%s)' % ctx.loc('sbmlutil', c))
-                if src(c.args[0]) not in ('%sspecies_id' % role,):
-                    problems.append('appends %s' % src(c.args[0]))
-            if n_expanded != 2:
-                problems.append('expected the expansion loop in both the known- and the unknown-species branch, found %d' % n_expanded)
-            ids = [util.stmt_key(s).replace(' ', '') for s in sl.body]
+            fin_txt = 'np.isfinite(%s.getStoichiometry())' % v
+            exp_iter = 'range(int(%s.getStoichiometry()))' % v
+            en = paths.Enumerator()
+            ps = en.run(sl.body, paths.State())
+            ctx.paths += len(ps)
+            seen = set()
+            for p in ps:
+                if p.exit != 'fall':
+                    continue
+                fin = [e.info for e in p.events if e.kind == 'test' and src(e.node).replace(' ', '') == fin_txt]
+                if not fin:
+                    problems.append('a path does not consult whether the stoichiometry is finite')
+                    continue
+                inside, outside = 0, 0
+                depth_loop = None
+                for e in p.events:
+                    if e.kind in ('loop+',) and src(e.node.iter).replace(' ', '') == exp_iter:
+                        depth_loop = e.depth
+                    if e.kind == 'loopexit' and depth_loop is not None and e.depth == depth_loop:
+                        depth_loop = None
+                    if e.kind == 'stmt' and paths.stmt_calls(e.node, '%s.append' % lst):
+                        c = paths.stmt_calls(e.node, '%s.append' % lst)[0]
+                        if src(c.args[0]) != '%sspecies_id' % role:
+                            problems.append('appends %s' % src(c.args[0]))
+                        if depth_loop is not None and e.depth > depth_loop:
+                            inside += 1
+                        else:
+                            outside += 1
+                zero_pass = any(e.kind == 'loop0' and src(e.node.iter).replace(' ', '') == exp_iter for e in p.events)
+                if fin[0]:
+                    seen.add('finite')
+                    if outside or (inside != 1 and not zero_pass) or (zero_pass and inside):
+                        problems.append('finite stoichiometry: id appended %d time(s) outside and %d inside the expansion loop' % (outside, inside))
+                else:
+                    seen.add('non-finite')
+                    if inside or outside != 1:
+                        problems.append('non-finite stoichiometry: id appended %d time(s)' % (inside + outside))
+            if seen != {'finite', 'non-finite'}:
+                problems.append('cases seen: %s' % sorted(seen))
+            ids = [util.stmt_key(s_).replace(' ', '') for s_ in sl.body]
             if '%sspecies=sbml_model.getSpecies(%s.getSpecies())' % (role, v) not in ids or '%sspecies_id=%sspecies.getId()' % (role, role) not in ids:
                 problems.append('the species id is not taken from this %s reference' % role)
         ctx.ob('R13.3-stoichiometry', lst, not problems, where,
-               'each %s id is appended int(stoichiometry) times in both branches; nothing else is appended' % role, '; '.join(problems[:3]))
+               'on every path each %s id is appended int(stoichiometry) times (once if the stoichiometry is not finite); nothing else is appended' % role,
+               '; '.join(sorted(set(problems))[:3]))
     mods = [n for n in ast.walk(lp) if isinstance(n, ast.Call) and 'getListOfModifiers' in src(n.func)]
     ctx.ob('R13.3-stoichiometry', 'modifiers', not mods, where, 'modifier species contribute no stoichiometry', '')
 
@@ -273,6 +291,8 @@ def check_local_params(ctx, f, lp):
 
 
 def check_species(ctx):
+    import sympy as sp
+    from .. import symx
     f = func(ctx, 'import_sbml_species')
     loops = [s for s in f.body if isinstance(s, ast.For)]
     problems = []
@@ -280,28 +300,43 @@ def check_species(ctx):
         raise AnalysisError('import_sbml_species: loop not found')
     lp = loops[0]
     v = src(lp.target)
-    en = paths.Enumerator()
-    ps = en.run(lp.body, paths.State())
-    for p in ps:
-        if p.exit != 'fall':
-            continue
-        txt = [util.stmt_key(e.node).replace(' ', '') for e in p.stmts()]
-        dec = {src(e.node).replace(' ', ''): e.info for e in p.events if e.kind == 'test'}
-        amt = dec.get('np.isfinite(%s.getInitialAmount())' % v)
-        conc = dec.get('np.isfinite(%s.getInitialConcentration())andallspecies[sid]==0' % v)
-        if 'allspecies[sid]=0.0' not in txt:
-            problems.append('species not registered with 0')
-        if amt is None or conc is None:
-            problems.append('amount / concentration tests not found (%s)' % sorted(dec))
-            continue
-        if amt != ('allspecies[sid]=%s.getInitialAmount()' % v in txt):
-            problems.append('finite amount not honoured')
-        if conc != ('allspecies[sid]=%s.getInitialConcentration()' % v in txt):
-            problems.append('concentration precedence wrong')
-        if amt and conc and txt.index('allspecies[sid]=%s.getInitialAmount()' % v) > txt.index('allspecies[sid]=%s.getInitialConcentration()' % v):
-            problems.append('concentration applied before amount')
+    body = [s_ for s_ in lp.body if not (isinstance(s_, ast.If) and any(isinstance(x, ast.Continue) for x in ast.walk(s_)))]
+    A, C = sp.Symbol('A', real=True), sp.Symbol('C', real=True)
+    FA, FC = sp.Symbol('FA', real=True), sp.Symbol('FC', real=True)
+
+    def call(n, env, se):
+        t = src(n).replace(' ', '')
+        if t == '%s.getInitialAmount()' % v:
+            return A
+        if t == '%s.getInitialConcentration()' % v:
+            return C
+        if t == 'np.isfinite(%s.getInitialAmount())' % v:
+            return sp.Ne(FA, 0)
+        if t == 'np.isfinite(%s.getInitialConcentration())' % v:
+            return sp.Ne(FC, 0)
+        return None
+    se = symx.SymExec(None, None, call=call)
+    g = ast.FunctionDef(name='g', args=ast.arguments(posonlyargs=[], args=[], kwonlyargs=[], kw_defaults=[], defaults=[]), body=body, decorator_list=[], type_params=[])
+    try:
+        final, _ = se.run_env(g, {})
+    except AnalysisError as e:
+        raise AnalysisError('import_sbml_species: %s' % e)
+    key = [k_ for k_ in (final or {}) if k_.replace(' ', '').startswith('allspecies[')]
+    if len(key) != 1:
+        problems.append('the species value is not stored under its id')
+    else:
+        val = final[key[0]]
+        for fa in (0, 1):
+            for fc in (0, 1):
+                for av in (0, 3):
+                    got = val.subs({FA: fa, FC: fc}).subs({A: av, C: 7})
+                    got = sp.simplify(got)
+                    v0 = av if fa else 0
+                    exp = 7 if (fc and v0 == 0) else v0
+                    if got != exp:
+                        problems.append('amount %s, concentration %s: value %s, expected %s' % (av if fa else 'unset', 7 if fc else 'unset', got, exp))
     ctx.ob('R13.5-initial-values', 'import_sbml_species', not problems, ctx.loc('sbmlutil', f),
-           'value = amount if finite; the concentration is used only if finite and the value is still 0', '; '.join(sorted(set(problems))))
+           'value = amount if finite; the concentration is used only if finite and the value is still 0', '; '.join(sorted(set(problems))[:3]))
     f = func(ctx, 'import_sbml_parameters')
     txt = [util.stmt_key(s).replace(' ', '') for s in ast.walk(f) if isinstance(s, ast.stmt)]
     ok = 'allparams[pid]=p.getValue()' in txt and 'pid=p.getId()' in txt
